@@ -138,6 +138,8 @@ def job_check(kind, case, rec):
     import meshio
 
     dim = 3 if kind == "hexahedron" else 2
+    if kind == "multibody":
+        case = dict(case, n=[max(3, v) for v in case["n"]])
     n = tuple(case["n"][:dim])
     mesh = (fem.Cube if dim == 3 else fem.Rectangle)(b=(1.0, 0.8, 0.6)[:dim], n=n)
     if case["jitter"]:
@@ -147,7 +149,18 @@ def job_check(kind, case, rec):
         mesh.update(points=X)
     region = fem.RegionHexahedron(mesh) if dim == 3 else fem.RegionQuad(mesh)
     fc = fem.FieldContainer([fem.Field(region, dim=3) if dim == 3 else fem.FieldPlaneStrain(region, dim=2)])
-    body = fem.SolidBody(fem.NeoHooke(mu=1.0, bulk=4.0), fc)
+    ekw = {}
+    if kind == "multibody":
+        # two bodies on sub-meshes which share the points of the global mesh; the global field is passed as x0 and its
+        # mesh is the one the result file must contain
+        nc_ = mesh.ncells
+        k_ = max(1, nc_ // 3)
+        subs = [fem.Mesh(mesh.points, mesh.cells[:k_], "quad"), fem.Mesh(mesh.points, mesh.cells[k_:], "quad")]
+        fields = [fem.FieldContainer([fem.FieldPlaneStrain(fem.RegionQuad(sm), dim=2)]) for sm in subs]
+        items = [fem.SolidBody(fem.NeoHooke(mu=3.0, bulk=9.0), fields[0]), fem.SolidBody(fem.NeoHooke(mu=1.0, bulk=4.0), fields[1])]
+        ekw["x0"] = fc
+    else:
+        items = [fem.SolidBody(fem.NeoHooke(mu=1.0, bulk=4.0), fc)]
     bounds, lc = fem.dof.uniaxial(fc, clamped=True, move=0.0)
     steps, flat, k = [], [], 0
     for ramp in case["steps"]:
@@ -157,7 +170,7 @@ def job_check(kind, case, rec):
                 vals[j] = float("nan")
             k += 1
         flat.append(vals)
-        steps.append(fem.Step(items=[body], ramp={bounds["move"]: np.array(vals)}, boundaries=bounds))
+        steps.append(fem.Step(items=items, ramp={bounds["move"]: np.array(vals)}, boundaries=bounds))
     seen = []
 
     def cb(stepnumber, substepnumber, substep, **kw):
@@ -171,7 +184,7 @@ def job_check(kind, case, rec):
         job = fem.Job(steps=steps, callback=cb)
         raised = False
         try:
-            job.evaluate(filename="res.xdmf", point_data=pdata, cell_data=cdata, point_data_default=case["pdefault"], cell_data_default=case["cdefault"], tol=1e-9)
+            job.evaluate(filename="res.xdmf", point_data=pdata, cell_data=cdata, point_data_default=case["pdefault"], cell_data_default=case["cdefault"], tol=1e-9, **ekw)
         except ValueError:
             raised = True
         stop = any(v != v for vals in flat for v in vals)
@@ -287,6 +300,10 @@ def save_check(kind, case, rec):
             if "Cauchy Stress" in mm.point_data:
                 got = np.asarray(mm.point_data["Cauchy Stress"])
                 rec.close("cauchy-stress-point-data", float(np.abs(got.reshape(len(ref), -1) - ref.reshape(len(ref), -1)).max()) if got.size == ref.size else float("inf"), 1e-14)
+        expected_keys = {"Displacements"} | ({"Reaction Force"} if forces is not None else set())
+        if gradient is not None:
+            expected_keys |= {"Cauchy Stress", "Cauchy Stress (Max. Principal)", "Cauchy Stress (Int. Principal)", "Cauchy Stress (Min. Principal)", "Cauchy Stress (Max. Principal Shear)"}
+        rec.require("point-data-is-exactly-what-was-passed", set(mm.point_data) == expected_keys, sorted(set(mm.point_data) ^ expected_keys))
         rec.require("points", np.array_equal(np.asarray(mm.points)[:, :dim], np.asarray(mesh.points)))
         rec.require("cells", len(mm.cells) == 1 and np.array_equal(np.asarray(mm.cells[0].data), np.asarray(mesh.cells)))
 
@@ -294,7 +311,7 @@ def save_check(kind, case, rec):
 FAMILIES = [
     Family("mesh", MESH_AXIS, mesh_check, strategy=mesh_strategy, n={"quick": 4, "thorough": 60}, chunk=20),
     Family("container", ["2d", "3d"], cont_check, strategy=cont_strategy, n={"quick": 15, "thorough": 300}, chunk=15),
-    Family("job", ["hexahedron", "quad"], job_check, strategy=job_strategy, n={"quick": 16, "thorough": 300}, chunk=4, weight=4),
+    Family("job", ["hexahedron", "quad", "multibody"], job_check, strategy=job_strategy, n={"quick": 16, "thorough": 300}, chunk=4, weight=4),
     Family("save", ["hexahedron", "quad", "tetra", "hexahedron20"], save_check, strategy=save_strategy, n={"quick": 8, "thorough": 100}, chunk=8),
 ]
 
